@@ -1157,7 +1157,19 @@ class StateEngine(object):
                 parent_id = parent_info["ID"]
                 parent_branch_results = all_branch_results.get(parent_id)
                 if parent_branch_results:
-                    parent_terminated = parent_branch_results.get("terminated")
+                    """
+                    The parent counts as terminated when it, or any Map or
+                    Parallel state that it is nested in, has been terminated:
+                    a failure further out that was caught or retried flags
+                    only the state that failed, and an event from three or
+                    more levels down must not run on under it.
+                    """
+                    parent_terminated = self.branch_results_wound_up(
+                        all_branch_results, parent_branch_results
+                    ) or any(
+                        "terminated" in all_branch_results.get(info.get("ID"), {})
+                        for info in branch_info_stack[:-1]
+                    )
                     parent_results = parent_branch_results.get("results")
                     parent_index = parent_info["Index"]
 
